@@ -1225,4 +1225,439 @@ theorem smHlAfterColon (pre t : Buf) (i : Nat) (h : Hdr) (hb : Option PHdrVals) 
         rw [a4 (Or.inl rfl)]
         exact ⟨⟨rfl, rfl⟩, hX0⟩
 
+/-! #### the name of the header -/
+
+/-- the header after its name has been completed at `j` (`S` = the next state) -/
+def smNameDone (h : Hdr) (S : HState) (j : Nat) : Hdr :=
+  { h with state := S, name := h.name.extend j, pnc := h.pnc || h.name.extendPanics j }
+
+theorem smNameDone_shift (k : Nat) (h : Hdr) (S : HState) (j : Nat) (hst : h.state = .name)
+    (hS : S = .nameEnd ∨ S = .bodyStart) (hk : k + j ≤ 65535) (ho : h.name.offs ≤ j) :
+    smNameDone (shHdr k h) S (k + j) = shHdr k (smNameDone h S j) := by
+  have hnm : (shHdr k h).name = shF k h.name := by
+    show shHn k h.state h.name = _; rw [hst]; rfl
+  unfold smNameDone
+  rw [hnm, extend_shift k h.name j hk ho, extendPanics_shift]
+  rcases hS with rfl | rfl <;> rfl
+
+theorem smName_none (b : Buf) (i : Nat) (h : Hdr) (hb : Option PHdrVals) (hg : b[skipTokenDelim b i 58]? = none) :
+    hlName b i h hb = .done (skipTokenDelim b i 58) .moreBytes (h, hb) := by
+  unfold hlName; simp only; rw [hg]
+
+theorem smName_ws (b : Buf) (i : Nat) (h : Hdr) (hb : Option PHdrVals) (c : UInt8)
+    (hg : b[skipTokenDelim b i 58]? = some c) (hw : isWS c = true) :
+    hlName b i h hb =
+      if (smNameDone h .nameEnd (skipTokenDelim b i 58)).name.isEmpty then
+        .done (skipTokenDelim b i 58) .badChar (smNameDone h .nameEnd (skipTokenDelim b i 58), hb)
+      else .cont (skipTokenDelim b i 58 + 1) (smNameDone h .nameEnd (skipTokenDelim b i 58), hb) := by
+  unfold hlName smNameDone; simp only; rw [hg]; simp only [hw, ↓reduceIte]
+
+theorem smName_colon (b : Buf) (i : Nat) (h : Hdr) (hb : Option PHdrVals) (c : UInt8)
+    (hg : b[skipTokenDelim b i 58]? = some c) (hw : isWS c = false) (hc : (c == 58) = true) :
+    hlName b i h hb =
+      if (smNameDone h .bodyStart (skipTokenDelim b i 58)).name.isEmpty then
+        .done (skipTokenDelim b i 58) .badChar (smNameDone h .bodyStart (skipTokenDelim b i 58), hb)
+      else hlAfterColon b (skipTokenDelim b i 58 + 1) (smNameDone h .bodyStart (skipTokenDelim b i 58)) hb := by
+  unfold hlName smNameDone; simp only; rw [hg]; simp only [hw, hc, Bool.false_eq_true, ↓reduceIte]
+
+theorem smName_other (b : Buf) (i : Nat) (h : Hdr) (hb : Option PHdrVals) (c : UInt8)
+    (hg : b[skipTokenDelim b i 58]? = some c) (hw : isWS c = false) (hc : (c == 58) = false) :
+    hlName b i h hb = .done (skipTokenDelim b i 58) .badChar (h, hb) := by
+  unfold hlName; simp only; rw [hg]; simp only [hw, hc, Bool.false_eq_true, ↓reduceIte]
+
+theorem smIsEmpty_pos {f : PField} (h : ¬ f.isEmpty = true) : 1 ≤ f.len := by
+  unfold PField.isEmpty at h
+  have : f.len ≠ 0 := by intro h0; apply h; rw [h0]; rfl
+  omega
+
+theorem smHlName (pre t : Buf) (i : Nat) (h : Hdr) (hb : Option PHdrVals) (hfit : pre.size + t.size ≤ 65535)
+    (hlt : i < t.size) (hst : h.state = .name) (hno : h.name.offs ≤ i) (hok : hbOK t i hb)
+    (hS : ∀ hv, hb = some hv → HvSafe t i .name hv) (hXv : ∀ hv, hb = some hv → HvSh t i .name hv) :
+    smStepRel pre.size (shHL pre.size) (smRelHL pre.size)
+        (hlName (pre ++ t) (pre.size + i) (shHdr pre.size h) (hb.map (shHv pre.size))) (hlName t i h hb) ∧
+      smPost t (hlName t i h hb) := by
+  have hge := skipTokenDelim_ge t i 58
+  have hle := skipTokenDelim_le t i 58 (Nat.le_of_lt hlt)
+  have hjs : skipTokenDelim (pre ++ t) (pre.size + i) 58 = pre.size + skipTokenDelim t i 58 := skipTokenDelim_shift pre t i 58
+  have hgB : (pre ++ t)[skipTokenDelim (pre ++ t) (pre.size + i) 58]? = t[skipTokenDelim t i 58]? := by
+    rw [hjs, get?_shift]
+  have hXm : ∀ (j : Nat) (S : HState), i ≤ j → j ≤ t.size → S ≠ .hContact → S ≠ .hPAI →
+      ∀ hv, hb = some hv → HvSh t j S hv := fun j S a1 a2 a3 a4 hv hh => (hXv hv hh).monoNV a1 a2 a3 a4
+  unfold smPost
+  cases hg : t[skipTokenDelim t i 58]? with
+  | none =>
+    rw [hg] at hgB
+    rw [smName_none _ _ _ _ hgB, smName_none _ _ _ _ hg, hjs]
+    refine ⟨⟨rfl, rfl, smRelHL_refl _ _ (h, hb)⟩, fun _ => ?_⟩
+    have hj : t.size ≤ skipTokenDelim t i 58 := by
+      rcases Nat.lt_or_ge (skipTokenDelim t i 58) t.size with hh | hh
+      · rw [Array.getElem?_eq_getElem hh] at hg; cases hg
+      · exact hh
+    exact ⟨fun _ => by omega, (fun hh => by simp only at hh; rw [hst] at hh; rcases hh with hh | hh <;> cases hh),
+      (fun _ hh _ => absurd hst hh), fun hv hh => by
+        show HvSh t _ h.state hv; rw [hst]; exact hXm _ _ hge hle (by decide) (by decide) hv hh⟩
+  | some c =>
+    rw [hg] at hgB
+    have hjl := get?_lt hg
+    by_cases hw : isWS c = true
+    · rw [smName_ws _ _ _ _ c hgB hw, smName_ws _ _ _ _ c hg hw, hjs,
+        smNameDone_shift pre.size h .nameEnd _ hst (Or.inl rfl) (by omega) (by omega)]
+      have hem : (shHdr pre.size (smNameDone h .nameEnd (skipTokenDelim t i 58))).name.isEmpty =
+          (smNameDone h .nameEnd (skipTokenDelim t i 58)).name.isEmpty := rfl
+      rw [hem]
+      by_cases he : (smNameDone h .nameEnd (skipTokenDelim t i 58)).name.isEmpty = true
+      · simp only [he, ↓reduceIte]
+        exact ⟨⟨rfl, rfl, smRelHL_refl _ _ (_, hb)⟩, fun hh => by rcases hh with hh | hh <;> cases hh⟩
+      · simp only [he, Bool.false_eq_true, ↓reduceIte]
+        refine ⟨⟨by omega, rfl⟩, ?_⟩
+        have := smIsEmpty_pos he
+        exact ⟨fun _ => by omega, (fun hh => by rcases hh with hh | hh <;> cases hh),
+          (fun _ _ _ => by
+            show 1 ≤ (smNameDone h .nameEnd (skipTokenDelim t i 58)).name.offs +
+              (smNameDone h .nameEnd (skipTokenDelim t i 58)).name.len
+            omega),
+          fun hv hh => by
+            show HvSh t _ HState.nameEnd hv
+            exact hXm _ _ (by omega) (by omega) (by decide) (by decide) hv hh⟩
+    · have hw' : isWS c = false := by simpa using hw
+      by_cases hc : (c == 58) = true
+      · rw [smName_colon _ _ _ _ c hgB hw' hc, smName_colon _ _ _ _ c hg hw' hc, hjs,
+          smNameDone_shift pre.size h .bodyStart _ hst (Or.inr rfl) (by omega) (by omega)]
+        have hem : (shHdr pre.size (smNameDone h .bodyStart (skipTokenDelim t i 58))).name.isEmpty =
+            (smNameDone h .bodyStart (skipTokenDelim t i 58)).name.isEmpty := rfl
+        rw [hem]
+        by_cases he : (smNameDone h .bodyStart (skipTokenDelim t i 58)).name.isEmpty = true
+        · simp only [he, ↓reduceIte]
+          exact ⟨⟨rfl, rfl, smRelHL_refl _ _ (_, hb)⟩, fun hh => by rcases hh with hh | hh <;> cases hh⟩
+        · simp only [he, Bool.false_eq_true, ↓reduceIte]
+          have := smIsEmpty_pos he
+          rw [Nat.add_assoc]
+          exact smHlAfterColon pre t (skipTokenDelim t i 58 + 1) _ hb hfit (by omega) (by omega) rfl
+            (extend_inside h.name _ _ (by omega) hle) (by omega) (hbOK_mono hok (by omega) (by omega))
+            (fun hv hh => ((hS hv hh).mono (by omega) (by omega)).restate (by decide) (by decide) (by decide) (by decide))
+            (fun hv hh => hXm _ _ (by omega) (by omega) (by decide) (by decide) hv hh)
+      · have hc' : (c == 58) = false := by simpa using hc
+        rw [smName_other _ _ _ _ c hgB hw' hc', smName_other _ _ _ _ c hg hw' hc', hjs]
+        exact ⟨⟨rfl, rfl, smRelHL_refl _ _ (h, hb)⟩, fun hh => by rcases hh with hh | hh <;> cases hh⟩
+
+/-! #### the end of a value token -/
+
+theorem smHdr_restate (k : Nat) (h : Hdr) (S : HState) (hs : shHn k S h.name = shHn k h.state h.name) :
+    ({ shHdr k h with state := S } : Hdr) = shHdr k { h with state := S } := by
+  unfold shHdr; simp only [hs]
+
+theorem smHn_mid (k : Nat) (S S' : HState) (f : PField) (h1 : S ≠ .init) (h2 : S ≠ .fin) (h3 : S' ≠ .init) (h4 : S' ≠ .fin) :
+    shHn k S f = shHn k S' f := by
+  have : ∀ X : HState, X ≠ .init → X ≠ .fin → shHn k X f = shF k f := by
+    intro X a b; cases X <;> first | rfl | exact absurd rfl a | exact absurd rfl b
+  rw [this S h1 h2, this S' h3 h4]
+
+theorem smHn_toFin (k : Nat) (S : HState) (f : PField) (h1 : S ≠ .init) (hnz : 1 ≤ f.offs + f.len) :
+    shHn k .fin f = shHn k S f := by
+  by_cases h2 : S = .fin
+  · rw [h2]
+  · have : shHn k S f = shF k f := by cases S <;> first | rfl | exact absurd rfl h1 | exact absurd rfl h2
+    rw [this]; exact sl_shO_of_pos k f hnz
+
+theorem smHlValEnd (pre t : Buf) (i : Nat) (h : Hdr) (hb : Option PHdrVals)
+    (hi : i ≤ t.size) (h1 : 1 ≤ i) (hst : h.state = .valEnd) (hnz : 1 ≤ h.name.offs + h.name.len)
+    (hvn : 1 ≤ h.val.offs) (hXv : ∀ hv, hb = some hv → HvSh t i .valEnd hv) :
+    smStepRel pre.size (shHL pre.size) (smRelHL pre.size)
+        (hlValEnd (pre ++ t) (pre.size + i) (shHdr pre.size h) (hb.map (shHv pre.size))) (hlValEnd t i h hb) ∧
+      smPost t (hlValEnd t i h hb) := by
+  have hXm : ∀ (j : Nat) (S : HState), i ≤ j → j ≤ t.size → S ≠ .hContact → S ≠ .hPAI →
+      ∀ hv, hb = some hv → HvSh t j S hv := fun j S a1 a2 a3 a4 hv hh => (hXv hv hh).monoNV a1 a2 a3 a4
+  unfold smPost hlValEnd
+  rw [skipLWS_shift]
+  rcases hsk : skipLWS t i 0 with ⟨n, crl, e⟩
+  have hr := skipLWS_range t i 0 hsk
+  have hn := hr.2 hi
+  have hv4 := skipLWS_verdicts t i 0 hsk
+  rcases hv4 with rfl | rfl | rfl | rfl <;> simp only
+  · obtain ⟨_, c, hc, _⟩ := skipLWS_ok t i 0 hsk
+    have hlt := get?_lt hc
+    rw [smHdr_restate pre.size h .val (by rw [hst]; rfl)]
+    refine ⟨⟨by omega, rfl⟩, ?_⟩
+    exact ⟨fun _ => by omega, (fun _ => hvn), (fun _ _ _ => hnz),
+      fun hv hh => by
+        show HvSh t _ HState.val hv
+        exact hXm _ _ (by omega) (by omega) (by decide) (by decide) hv hh⟩
+  · have hrg := skipLWS_eoh_range t i 0 hsk (by decide)
+    rw [smHdr_restate pre.size h .fin (smHn_toFin pre.size h.state h.name (by rw [hst]; decide) hnz)]
+    refine ⟨⟨by omega, rfl, smRelHL_refl _ _ (_, hb)⟩, fun _ => ?_⟩
+    exact ⟨fun _ => by omega, (fun hh => by rcases hh with hh | hh <;> cases hh), (fun _ _ hh => absurd rfl hh),
+      fun hv hh => by
+        show HvSh t _ HState.fin hv
+        exact hXm _ _ (by omega) (by omega) (by decide) (by decide) hv hh⟩
+  · exact ⟨⟨rfl, rfl, smRelHL_refl _ _ (h, hb)⟩, fun hh => by rcases hh with hh | hh <;> cases hh⟩
+  · refine ⟨⟨rfl, rfl, smRelHL_refl _ _ (h, hb)⟩, fun _ => ?_⟩
+    exact ⟨fun _ => by omega, (fun _ => hvn), (fun _ _ _ => hnz),
+      fun hv hh => by
+        show HvSh t _ h.state hv
+        rw [hst]
+        exact hXm _ _ (by omega) (by omega) (by decide) (by decide) hv hh⟩
+
+/-! #### one iteration of the header-line loop -/
+
+/-- **the loop invariant of the shift theorem for ParseHdrLine**: the panic-freedom invariants of SafeHdrLine /
+    HdrLineL1 plus `HlSh` -/
+def HlAll (t : Buf) (i : Nat) (st : HLσ) : Prop := HlSafe t i st ∧ hlInv t i st ∧ HlSh t i st
+
+theorem smHdr_startName (k : Nat) (h : Hdr) (i : Nat) (hk : k + i ≤ 65535) :
+    ({ shHdr k h with state := .name, name := PField.set (k + i) (k + i) } : Hdr) =
+      shHdr k { h with state := .name, name := PField.set i i } := by
+  unfold shHdr
+  simp only [shHn, set_shift k i i hk]
+
+theorem smHdr_startVal (k : Nat) (h : Hdr) (n : Nat) (hst : h.state = .bodyStart) (hn : 1 ≤ n) (hk : k + n ≤ 65535) :
+    ({ shHdr k h with state := .val, val := PField.set (k + n) (k + n) } : Hdr) =
+      shHdr k { h with state := .val, val := PField.set n n } := by
+  have e1 : shO k (PField.set n n) = PField.set (k + n) (k + n) := by
+    rw [set_shift k n n hk, sl_shO_of_pos]
+    have : (PField.set n n).offs = n := flo_set_offs n n (by omega)
+    omega
+  unfold shHdr
+  simp only [e1, hst, shHn]
+
+theorem smHdr_extVal (k : Nat) (h : Hdr) (j : Nat) (hst : h.state = .val) (hvn : 1 ≤ h.val.offs) (hvo : h.val.offs ≤ j)
+    (hk : k + j ≤ 65535) :
+    ({ shHdr k h with val := (shHdr k h).val.extend (k + j), pnc := (shHdr k h).pnc || (shHdr k h).val.extendPanics (k + j),
+                      state := .valEnd } : Hdr) =
+      shHdr k { h with val := h.val.extend j, pnc := h.pnc || h.val.extendPanics j, state := .valEnd } := by
+  have e0 : (shHdr k h).val = shF k h.val := by
+    show shO k h.val = _; exact sl_shO_of_pos k h.val (by omega)
+  have e1 : shO k (h.val.extend j) = shF k (h.val.extend j) := by
+    apply sl_shO_of_pos
+    show 1 ≤ h.val.offs + _
+    omega
+  rw [e0, extend_shift k h.val j hk hvo, extendPanics_shift]
+  unfold shHdr
+  simp only [e1, hst, shHn]
+
+theorem smHlStep (pre t : Buf) (i : Nat) (c : UInt8) (st : HLσ) (hfit : pre.size + t.size ≤ 65535)
+    (hb : t[i]? = some c) (hA : HlAll t i st) :
+    smStepRel pre.size (shHL pre.size) (smRelHL pre.size)
+        (hlStep (pre ++ t) (pre.size + i) c (shHL pre.size st)) (hlStep t i c st) ∧
+      smPost t (hlStep t i c st) := by
+  obtain ⟨h, hbv⟩ := st
+  obtain ⟨H, hI, hX⟩ := hA
+  have hlt := get?_lt hb
+  have hi : i ≤ t.size := H.hi
+  have hok : hbOK t i hbv := hI.2.2
+  have hSv : ∀ hv, hbv = some hv → HvSafe t i h.state hv := fun hv hh => H.hv hv hh
+  have hXv : ∀ hv, hbv = some hv → HvSh t i h.state hv := fun hv hh => hX.hv hv hh
+  have hXm : ∀ (j : Nat) (S : HState), ¬ h.state.isVal → i ≤ j → j ≤ t.size → S ≠ .hContact → S ≠ .hPAI →
+      ∀ hv, hbv = some hv → HvSh t j S hv := fun j S _ a1 a2 a3 a4 hv hh => (hXv hv hh).monoNV a1 a2 a3 a4
+  have hSm : ∀ (j : Nat) (S : HState), ¬ h.state.isVal → i ≤ j → j ≤ t.size → S ≠ .hContact → S ≠ .hPAI →
+      ∀ hv, hbv = some hv → HvSafe t j S hv := fun j S a0 a1 a2 a3 a4 hv hh =>
+    ((hSv hv hh).mono a1 a2).restate (isVal_hContact a0) (isVal_hPAI a0) a3 a4
+  have hX' : HlSh t i (h, hbv) := hX
+  unfold smPost hlStep
+  simp only [shHL, shHdr_state]
+  cases hst : h.state <;> simp only
+  case init =>
+    have hnv : ¬ h.state.isVal := not_isVal_of (by simp [hst])
+    have hfinE : ∀ j : Nat, ({ shHdr pre.size h with state := HState.fin } : Hdr) = shHdr pre.size { h with state := .fin } :=
+      fun _ => smHdr_restate pre.size h .fin (by rw [hst]; rfl)
+    by_cases h13 : (c == 13) = true
+    · simp only [h13, ↓reduceIte]
+      rw [get?_shift1]
+      cases hc1 : t[i + 1]? with
+      | none => exact ⟨⟨rfl, rfl, smRelHL_refl _ _ (h, hbv)⟩, fun _ => hX'⟩
+      | some c1 =>
+        simp only
+        rw [hfinE 0]
+        by_cases h10 : (c1 == 10) = true
+        · simp only [h10, ↓reduceIte]
+          exact ⟨⟨by omega, rfl, smRelHL_refl _ _ (_, hbv)⟩, fun hh => by rcases hh with hh | hh <;> cases hh⟩
+        · simp only [h10, Bool.false_eq_true, ↓reduceIte]
+          exact ⟨⟨by omega, rfl, smRelHL_refl _ _ (_, hbv)⟩, fun hh => by rcases hh with hh | hh <;> cases hh⟩
+    · simp only [h13, Bool.false_eq_true, ↓reduceIte]
+      by_cases h10 : (c == 10) = true
+      · simp only [h10, ↓reduceIte]
+        rw [hfinE 0]
+        exact ⟨⟨by omega, rfl, smRelHL_refl _ _ (_, hbv)⟩, fun hh => by rcases hh with hh | hh <;> cases hh⟩
+      · simp only [h10, Bool.false_eq_true, ↓reduceIte]
+        rw [smHdr_startName pre.size h i (by omega)]
+        exact smHlName pre t i _ hbv hfit hlt rfl
+          (by show (PField.set i i).offs ≤ i; rw [flo_set_offs i i (by omega)]; exact Nat.le_refl _) hok
+          (hSm i .name hnv (Nat.le_refl _) hi (by decide) (by decide))
+          (hXm i .name hnv (Nat.le_refl _) hi (by decide) (by decide))
+  case name =>
+    have hnv : ¬ h.state.isVal := not_isVal_of (by simp [hst])
+    exact smHlName pre t i h hbv hfit hlt hst (H.nameI hst) hok
+      (hSm i .name hnv (Nat.le_refl _) hi (by decide) (by decide))
+      (hXm i .name hnv (Nat.le_refl _) hi (by decide) (by decide))
+  case nameEnd =>
+    have hnv : ¬ h.state.isVal := not_isVal_of (by simp [hst])
+    have h1 : 1 ≤ i := hX.pos (by rw [hst]; decide)
+    have hnz : 1 ≤ h.name.offs + h.name.len := hX.nameNz (by rw [hst]; decide) (by rw [hst]; decide) (by rw [hst]; decide)
+    have hge := skipWS_ge t i
+    have hle := skipWS_le t i hi
+    rw [skipWS_shift, get?_shift]
+    cases hg : t[skipWS t i]? with
+    | none =>
+      simp only
+      refine ⟨⟨rfl, rfl, smRelHL_refl _ _ (h, hbv)⟩, fun _ => ?_⟩
+      exact ⟨fun _ => by omega, (fun hh => by simp only at hh; rw [hst] at hh; rcases hh with hh | hh <;> cases hh),
+        (fun _ _ _ => hnz), fun hv hh => by
+          show HvSh t _ h.state hv
+          rw [hst]; exact hXm _ _ hnv hge hle (by decide) (by decide) hv hh⟩
+    | some c1 =>
+      have hjl := get?_lt hg
+      simp only
+      by_cases hc : (c1 == 58) = true
+      · simp only [hc, ↓reduceIte]
+        rw [smHdr_restate pre.size h .bodyStart (by rw [hst]; rfl), Nat.add_assoc]
+        exact smHlAfterColon pre t (skipWS t i + 1) _ hbv hfit (by omega) (by omega) rfl H.nameF hnz
+          (hbOK_mono hok (by omega) (by omega))
+          (hSm _ .bodyStart hnv (by omega) (by omega) (by decide) (by decide))
+          (hXm _ .bodyStart hnv (by omega) (by omega) (by decide) (by decide))
+      · simp only [hc, Bool.false_eq_true, ↓reduceIte]
+        exact ⟨⟨rfl, rfl, smRelHL_refl _ _ (h, hbv)⟩, fun hh => by rcases hh with hh | hh <;> cases hh⟩
+  case bodyStart =>
+    have hnv : ¬ h.state.isVal := not_isVal_of (by simp [hst])
+    have h1 : 1 ≤ i := hX.pos (by rw [hst]; decide)
+    have hnz : 1 ≤ h.name.offs + h.name.len := hX.nameNz (by rw [hst]; decide) (by rw [hst]; decide) (by rw [hst]; decide)
+    rw [skipLWS_shift]
+    rcases hsk : skipLWS t i 0 with ⟨n, crl, e⟩
+    have hr := skipLWS_range t i 0 hsk
+    have hn := hr.2 hi
+    have hv4 := skipLWS_verdicts t i 0 hsk
+    rcases hv4 with rfl | rfl | rfl | rfl <;> simp only
+    · obtain ⟨_, c', hc, _⟩ := skipLWS_ok t i 0 hsk
+      have hlt' := get?_lt hc
+      rw [smHdr_startVal pre.size h n hst (by omega) (by omega)]
+      refine ⟨⟨by omega, rfl⟩, ?_⟩
+      exact ⟨fun _ => by omega,
+        (fun _ => by show 1 ≤ (PField.set n n).offs; rw [flo_set_offs n n (by omega)]; omega),
+        (fun _ _ _ => hnz),
+        fun hv hh => by
+          show HvSh t _ HState.val hv
+          exact hXm _ _ hnv (by omega) (by omega) (by decide) (by decide) hv hh⟩
+    · have hrg := skipLWS_eoh_range t i 0 hsk (by decide)
+      rw [smHdr_restate pre.size h .fin (smHn_toFin pre.size h.state h.name (by rw [hst]; decide) hnz)]
+      refine ⟨⟨by omega, rfl, smRelHL_refl _ _ (_, hbv)⟩, fun _ => ?_⟩
+      exact ⟨fun _ => by omega, (fun hh => by rcases hh with hh | hh <;> cases hh), (fun _ _ hh => absurd rfl hh),
+        fun hv hh => by
+          show HvSh t _ HState.fin hv
+          exact hXm _ _ hnv (by omega) (by omega) (by decide) (by decide) hv hh⟩
+    · exact ⟨⟨rfl, rfl, smRelHL_refl _ _ (h, hbv)⟩, fun hh => by rcases hh with hh | hh <;> cases hh⟩
+    · refine ⟨⟨rfl, rfl, smRelHL_refl _ _ (h, hbv)⟩, fun _ => ?_⟩
+      exact ⟨fun _ => by omega, (fun hh => by simp only at hh; rw [hst] at hh; rcases hh with hh | hh <;> cases hh),
+        (fun _ _ _ => hnz),
+        fun hv hh => by
+          show HvSh t _ h.state hv
+          rw [hst]
+          exact hXm _ _ hnv (by omega) (by omega) (by decide) (by decide) hv hh⟩
+  case val =>
+    have hnv : ¬ h.state.isVal := not_isVal_of (by simp [hst])
+    have h1 : 1 ≤ i := hX.pos (by rw [hst]; decide)
+    have hnz : 1 ≤ h.name.offs + h.name.len := hX.nameNz (by rw [hst]; decide) (by rw [hst]; decide) (by rw [hst]; decide)
+    have hvn : 1 ≤ h.val.offs := hX.valNz (Or.inl hst)
+    have hvo : h.val.offs ≤ i := H.valI (Or.inl hst)
+    have hge := skipToken_ge t i
+    have hle := skipToken_le t i hi
+    rw [skipToken_shift, get?_shift]
+    cases hg : t[skipToken t i]? with
+    | none =>
+      simp only
+      refine ⟨⟨rfl, rfl, smRelHL_refl _ _ (h, hbv)⟩, fun _ => ?_⟩
+      exact ⟨fun _ => by omega, (fun _ => hvn), (fun _ _ _ => hnz), fun hv hh => by
+          show HvSh t _ h.state hv
+          rw [hst]; exact hXm _ _ hnv hge hle (by decide) (by decide) hv hh⟩
+    | some c1 =>
+      have hjl := get?_lt hg
+      simp only
+      rw [smHdr_extVal pre.size h (skipToken t i) hst hvn (by omega) (by omega)]
+      exact smHlValEnd pre t (skipToken t i) _ hbv hle (by omega) rfl hnz
+        (by show 1 ≤ (h.val.extend (skipToken t i)).offs; exact hvn)
+        (hXm _ .valEnd hnv hge hle (by decide) (by decide))
+  case valEnd =>
+    have h1 : 1 ≤ i := hX.pos (by rw [hst]; decide)
+    have hnz : 1 ≤ h.name.offs + h.name.len := hX.nameNz (by rw [hst]; decide) (by rw [hst]; decide) (by rw [hst]; decide)
+    exact smHlValEnd pre t i h hbv hi h1 hst hnz (hX.valNz (Or.inr hst)) (fun hv hh => by rw [← hst]; exact hXv hv hh)
+  case fin =>
+    exact ⟨⟨rfl, rfl, smRelHL_refl _ _ (h, hbv)⟩, fun hh => by rcases hh with hh | hh <;> cases hh⟩
+  all_goals
+    (have hisv : h.state.isVal := by rw [hst]; unfold HState.isVal; simp
+     cases hbv with
+     | none =>
+       unfold hlCont
+       exact ⟨⟨rfl, rfl, smRelHL_refl pre.size .bug ({ h with pnc := true }, none)⟩,
+         fun hh => by rcases hh with hh | hh <;> cases hh⟩
+     | some hv => exact smHlCont pre t i h hv hfit H hI hX hisv)
+
+/-! ### ParseHdrLine -/
+
+theorem smHlAll_cont (pre t : Buf) (hfit : pre.size + t.size ≤ 65535) (i : Nat) (c : UInt8) (st : HLσ) (i' : Nat)
+    (st' : HLσ) (hb : t[i]? = some c) (hA : HlAll t i st) (hs : hlStep t i c st = .cont i' st') : HlAll t i' st' := by
+  have hlt := hl_progress t i c st i' st' hb hs
+  have h1 := hlStep_safe t i c st (by omega) hb hA.1 hA.2.1
+  have h2 := (smHlStep pre t i c st hfit hb hA).2
+  unfold smPost at h2
+  rw [hs] at h1 h2
+  exact ⟨h1, hl_invCont t i c st i' st' hb hA.2.1 hs hlt, h2⟩
+
+/-- **ParseHdrLine is position independent** (loop form) -/
+theorem smHdrLoop (pre t : Buf) (o : Nat) (st : HLσ) (hfit : pre.size + t.size ≤ 65535) (hA : HlAll t o st) :
+    smResRel pre.size (smRelHL pre.size) (runLoop hlMachine (pre ++ t) (pre.size + o) (shHL pre.size st))
+      (runLoop hlMachine t o st) ∧
+    (((runLoop hlMachine t o st).2.1 = .ok ∨ (runLoop hlMachine t o st).2.1 = .moreBytes) →
+      HlSh t (runLoop hlMachine t o st).1 (runLoop hlMachine t o st).2.2) := by
+  refine ⟨?_, ?_⟩
+  · exact runLoop_shiftR hlMachine pre t (shHL pre.size) (smRelHL pre.size) (HlAll t) (smRelHL_refl pre.size)
+      (fun i c s i' s' hb hI hs _ => smHlAll_cont pre t hfit i c s i' s' hb hI hs)
+      (fun i c s hb hI => (smHlStep pre t i c s hfit hb hI).1)
+      (fun i s _ _ => ⟨rfl, rfl, smRelHL_refl _ _ _⟩) o st hA
+  · exact runLoop_safe2 hlMachine t (HlAll t) (fun n e s => (e = .ok ∨ e = .moreBytes) → HlSh t n s) hl_progress
+      (by
+        intro i c s hb hI
+        have h2 := (smHlStep pre t i c s hfit hb hI).2
+        change StepAll2 _ _ (hlStep t i c s)
+        unfold smPost at h2
+        rcases hc : hlStep t i c s with ⟨i', s'⟩ | ⟨n, e, s'⟩
+        · exact smHlAll_cont pre t hfit i c s i' s' hb hI hc
+        · rw [hc] at h2; exact h2)
+      (fun i s hI _ => hI.2.2) o st hA
+
+/-- **ParseHdrLine is position independent**: for a legitimate (header, values) pair (`HlAll`), the call on
+    `pre ++ t` at `pre.size + o` with the moved header and values returns the moved result: offset moved by
+    `pre.size`, the same verdict, and the moved header and values — exactly after OK / MoreBytes / Empty, and up to
+    the stale (never reported) restart offset of the name-addr value that was being parsed after an error verdict
+    (`smRelHL`). After OK and MoreBytes the returned pair satisfies the shift invariant `HlSh` again at the
+    returned offset. -/
+theorem parseHdrLine_shift (pre t : Buf) (o : Nat) (h : Hdr) (hb : Option PHdrVals) (hfit : pre.size + t.size ≤ 65535)
+    (hA : HlAll t o (h, hb)) {o' : Nat} {e : Err} {h' : Hdr} {hb' : Option PHdrVals}
+    (hr : parseHdrLine t o h hb = (o', e, h', hb')) :
+    ∃ h'' hb'', parseHdrLine (pre ++ t) (pre.size + o) (shHdr pre.size h) (hb.map (shHv pre.size)) =
+        (pre.size + o', e, h'', hb'') ∧
+      smRelHL pre.size e (h'', hb'') (h', hb') ∧ ((e = .ok ∨ e = .moreBytes) → HlSh t o' (h', hb')) := by
+  obtain ⟨R, P⟩ := smHdrLoop pre t o (h, hb) hfit hA
+  unfold parseHdrLine at hr ⊢
+  rcases hrl : runLoop hlMachine t o (h, hb) with ⟨o1, e1, h1, hb1⟩
+  rw [hrl] at hr R P
+  simp only [Prod.mk.injEq] at hr
+  obtain ⟨rfl, rfl, rfl, rfl⟩ := hr
+  rcases hrl' : runLoop hlMachine (pre ++ t) (pre.size + o) (shHL pre.size (h, hb)) with ⟨o2, e2, h2, hb2⟩
+  rw [hrl'] at R
+  obtain ⟨r1, r2, r3⟩ := R
+  simp only at r1 r2 r3 P
+  subst r1 r2
+  have e0 : runLoop hlMachine (pre ++ t) (pre.size + o) (shHdr pre.size h, hb.map (shHv pre.size)) = (pre.size + o1, e2, h2, hb2) := hrl'
+  rw [e0]
+  exact ⟨h2, hb2, rfl, r3, P⟩
+
+/-- … in the plain form after OK / MoreBytes / Empty -/
+theorem parseHdrLine_shift_exact (pre t : Buf) (o : Nat) (h : Hdr) (hb : Option PHdrVals)
+    (hfit : pre.size + t.size ≤ 65535) (hA : HlAll t o (h, hb)) {o' : Nat} {e : Err} {h' : Hdr} {hb' : Option PHdrVals}
+    (hr : parseHdrLine t o h hb = (o', e, h', hb')) (he : smExact e) :
+    parseHdrLine (pre ++ t) (pre.size + o) (shHdr pre.size h) (hb.map (shHv pre.size)) =
+      (pre.size + o', e, shHdr pre.size h', hb'.map (shHv pre.size)) := by
+  obtain ⟨h'', hb'', a1, a2, _⟩ := parseHdrLine_shift pre t o h hb hfit hA hr
+  rw [a1]
+  have := a2.2 he
+  simp only [shHL, Prod.mk.injEq] at this
+  rw [this.1, this.2]
+
 end Sipsp
